@@ -429,7 +429,15 @@ def check_frame(case):
         kw = {}
         if case['iname'] != '__skip__':
             kw['index'] = case['iname']
-        r = lib(lambda: f.rename(case['name'], **kw))
+        # (the columns name is set in half of the cases, the container name left alone in a quarter)
+        cname = ('cn', 2) if (n + m) % 2 else '__skip__'
+        if cname != '__skip__':
+            kw['columns'] = cname
+        if (n * 3 + m) % 4 == 0 and kw:
+            name_expect = rec.get('name')
+            r = lib(lambda: f.rename(**kw))
+        else:
+            r = lib(lambda: f.rename(case['name'], **kw))
         addressed_cells = 1
     elif iface == 'insert':
         p = case['pos']
@@ -498,6 +506,12 @@ def check_frame(case):
     if iface == 'rename' and case['iname'] != '__skip__':
         if not eq(obs.canon_name(r.index.name), canon(case['iname'])):
             raise Failure('name', 'rename(index=%r): index name %r' % (case['iname'], r.index.name))
+    if iface == 'rename':
+        want_cn = obs.canon_name(f.columns.name) if cname == '__skip__' else canon(cname)
+        if not eq(obs.canon_name(r.columns.name), want_cn):
+            raise Failure('name', 'rename(%s): columns name %r expected %r' % (sorted(kw), r.columns.name, want_cn))
+        if case['iname'] == '__skip__' and obs.canon_name(r.index.name) != obs.canon_name(f.index.name):
+            raise Failure('name', 'rename(%s): index name %r became %r' % (sorted(kw), f.index.name, r.index.name))
     if iface == 'mask' and not eq(obs.canon_name(r.name), canon(name_expect)):
         raise Failure('name', '%s: expected name %r got %r' % (iface, name_expect, r.name))
     if case.get('go') and isinstance(r, sf.FrameGO) and r is not f and r.columns.depth == 1:
